@@ -35,6 +35,9 @@ def main():
         m = re.search(r"^package (\w+)", src, re.M)
         pkg = m.group(1).removesuffix("_test")
         pdir = PKGDIR.get(pkg)
+        mc = re.match(r"//\s*copy to:\s*(\S+)", src)
+        if mc and os.path.isdir(os.path.join("/repo", mc.group(1).strip("/"))):
+            pdir = mc.group(1).strip("/")
         if not pdir:
             print(sid, "SKIP: unknown package", pkg); continue
         tests = re.findall(r"^func (Test\w+)\(", src, re.M)
